@@ -351,9 +351,97 @@ fn dec(b: &[u8]) -> curve25519_dalek::ristretto::RistrettoPoint {
   CompressedRistretto::from_slice(b).unwrap().decompress().unwrap()
 }
 
+/// BATCHED proofs (the seeded composite): an honest batch verifies; a batch in which some output is
+/// not the evaluation of its input is rejected - outputs handed to the wrong requests, offsets that
+/// cancel in the plain sum, a repeated honest value, the identity
+fn c13_batches(g: &mut Sm, q: bool) {
+  use curve25519_dalek::ristretto::RistrettoPoint;
+  use curve25519_dalek::traits::Identity;
+  use ppoprf::ppoprf::ProofDLEQ;
+  let rounds = if q { 12 } else { 150 };
+  for bi in 0..rounds {
+    let n = 1 + bi % 6;
+    let key = rand_scalar(g);
+    let pv = key * BASE;
+    let ps: Vec<RistrettoPoint> = (0..n).map(|_| rand_point(g)).collect();
+    let qs: Vec<RistrettoPoint> = ps.iter().map(|p| key * p).collect();
+    let proof = match std::panic::catch_unwind(std::panic::AssertUnwindSafe(|| ProofDLEQ::verif_new_batch(&key, &pv, &ps, &qs))) {
+      Ok(p) => p,
+      Err(_) => {
+        fail("batch_proof_panicked", &[("n", n.to_string())]);
+        continue;
+      }
+    };
+    let show = |v: &[RistrettoPoint]| v.iter().map(pth).collect::<Vec<_>>().join(",");
+    let verify = |ps: &[RistrettoPoint], qs: &[RistrettoPoint]| std::panic::catch_unwind(std::panic::AssertUnwindSafe(|| proof.verif_verify_batch(&pv, ps, qs))).unwrap_or(false);
+    if !verify(&ps, &qs) {
+      fail("honest_batch_rejected", &[("n", n.to_string()), ("key", sch(&key)), ("inputs", show(&ps))]);
+    }
+    case(true);
+    let mut tampers: Vec<(String, Vec<RistrettoPoint>, Vec<RistrettoPoint>)> = Vec::new();
+    let d = rand_point(g);
+    for i in 0..n {
+      for j in (i + 1)..n {
+        let mut q2 = qs.clone();
+        q2.swap(i, j);
+        tampers.push((format!("outputs of requests {} and {} exchanged", i, j), ps.clone(), q2));
+        let mut p2 = ps.clone();
+        p2.swap(i, j);
+        tampers.push((format!("inputs of requests {} and {} exchanged", i, j), p2, qs.clone()));
+        let mut q3 = qs.clone();
+        q3[i] += d;
+        q3[j] -= d;
+        tampers.push((format!("output {} + D, output {} - D", i, j), ps.clone(), q3));
+        let mut q4 = qs.clone();
+        q4[i] += BASE;
+        q4[j] -= BASE;
+        tampers.push((format!("output {} + G, output {} - G", i, j), ps.clone(), q4));
+        let mut q5 = qs.clone();
+        q5[j] = qs[i];
+        tampers.push((format!("output {} replaced by the honest output {}", j, i), ps.clone(), q5));
+        let mut p5 = ps.clone();
+        p5[i] += d;
+        p5[j] -= d;
+        tampers.push((format!("input {} + D, input {} - D", i, j), p5, qs.clone()));
+        for k in (j + 1)..n {
+          let mut q6 = qs.clone();
+          q6[i] += d + d;
+          q6[j] -= d;
+          q6[k] -= d;
+          tampers.push((format!("output {} + 2D, outputs {} and {} - D", i, j, k), ps.clone(), q6));
+          let mut q7 = qs.clone();
+          let (a, b, c) = (qs[i], qs[j], qs[k]);
+          q7[i] = b;
+          q7[j] = c;
+          q7[k] = a;
+          tampers.push((format!("outputs of requests {}, {}, {} rotated", i, j, k), ps.clone(), q7));
+        }
+      }
+      let mut q8 = qs.clone();
+      q8[i] = RistrettoPoint::identity();
+      tampers.push((format!("output {} replaced by the identity", i), ps.clone(), q8));
+      let mut q9 = qs.clone();
+      q9[i] += BASE;
+      tampers.push((format!("output {} + G", i), ps.clone(), q9));
+    }
+    for (what, p2, q2) in tampers {
+      // only batches in which some output is NOT the evaluation of its input must be rejected
+      if p2.iter().zip(q2.iter()).all(|(p, q)| key * p == *q) {
+        continue;
+      }
+      stat("oracle.C13.batch_tampers");
+      if verify(&p2, &q2) {
+        fail("batch_proof_accepts_wrong_evaluation", &[("batch_size", n.to_string()), ("tamper", what), ("key", sch(&key)), ("public_value", pth(&pv)), ("inputs", show(&p2)), ("outputs", show(&q2)), ("honest_inputs", show(&ps)), ("honest_outputs", show(&qs))]);
+      }
+      case(true);
+    }
+  }
+}
+
 pub fn c13(tier: &str, seed: u64) {
   let mut g = Sm::new(seed, "oracle.C13");
   let q = quick(tier);
+  c13_batches(&mut g, q);
   let nservers = if q { 25 } else { 400 };
   let mut commitments: HashSet<Vec<u8>> = HashSet::new();
   let mut last: Option<Honest> = None;
